@@ -54,16 +54,24 @@ def _nest(dic, value, idx=None):
 
 
 class WrapFun:
-    def __init__(self, f, jit_compile=False):
+    def __init__(self, f, jit_compile=False, state=None):
+        """
+        :param state: optional function returning a hashable description of the
+            python-level state that tracing ``f`` freezes into the graph; the
+            function is traced again when it changes.
+        """
         self.f = f
         self.cached_f = {}
         self.struct = {}
         self.jit_compile = jit_compile
+        self.state = state
 
     def __call__(self, *args, **kwargs):
 
         new_x = list(_flatten((args, kwargs)))
         idx = len(new_x)
+        if self.state is not None:
+            idx = (idx, self.state())
 
         if idx not in self.cached_f:
             self.struct[idx] = _wrap_struct((args, kwargs))
